@@ -138,10 +138,6 @@ impl Snapshots {
         }
         ev
     }
-    /// Values of all targets at every open level, innermost first (what a full drain observes).
-    pub fn drained(&self) -> Vec<Vec<String>> {
-        self.levels.iter().rev().cloned().collect()
-    }
 }
 
 /// Self-validation: the repository's own TeX-recorded expectations for scoping, replayed through
